@@ -306,6 +306,8 @@ buildexe(struct input *inputs, size_t ninputs, char *output)
 	if (!flags.nostdlib && startfiles[0])
 		arrayaddbuf(&s->cmd, startfiles, sizeof(startfiles));
 	for (i = 0; i < ninputs; ++i) {
+		if (!inputs[i].name)
+			continue;  /* ignored input */
 		if (inputs[i].lib)
 			arrayaddptr(&s->cmd, "-l");
 		arrayaddptr(&s->cmd, inputs[i].name);
@@ -320,7 +322,7 @@ buildexe(struct input *inputs, size_t ninputs, char *output)
 	if (waitpid(pid, &status, 0) < 0)
 		fatal("waitpid %ju:", (uintmax_t)pid);
 	for (i = 0; i < ninputs; ++i) {
-		if (inputs[i].filetype != OBJ)
+		if (inputs[i].name && inputs[i].filetype != OBJ)
 			unlink(inputs[i].name);
 	}
 	exit(!succeeded(s->name, pid, status));
@@ -574,8 +576,10 @@ main(int argc, char *argv[])
 	}
 	arrayforeach (&inputs, input) {
 		/* ignore the input if it doesn't participate in the last stage */
-		if (!(input->stages & 1 << last))
+		if (!(input->stages & 1 << last)) {
+			input->name = NULL;
 			continue;
+		}
 		/* only run up through the last stage */
 		input->stages &= (1 << last + 1) - 1;
 		buildobj(input, output);
